@@ -19,6 +19,9 @@ use std::cell::RefCell;
 // ---------------------------------------------------------------- cross-type / both-receiver plumbing (local copy, lib.rs is shared)
 
 thread_local! { static NOTE: RefCell<Option<String>> = const { RefCell::new(None) }; }
+// huge `n` lines: the Result receiver only on i64, no repeated call (the crate needs 0.1 s per call there)
+thread_local! { static LITE: std::cell::Cell<bool> = const { std::cell::Cell::new(false) }; }
+fn lite() -> bool { LITE.with(|l| l.get()) }
 fn note(s: String) { NOTE.with(|n| { let mut n = n.borrow_mut(); if n.is_none() { *n = Some(s); } }); }
 fn take_note() -> Option<String> { NOTE.with(|n| n.borrow_mut().take()) }
 
@@ -52,11 +55,12 @@ fn brief<T: Tagged>(r: &Result<Array<T>, ArrayError>) -> String { truncate(&res_
 fn rx<T: Tagged>(plain: impl Fn() -> Result<Array<T>, ArrayError>, chained: impl Fn() -> Result<Array<T>, ArrayError>) -> Result<Array<T>, ArrayError> {
     let p = plain();
     if let Ok(a) = &p { if !consistent(a) { note(format!("INCONSISTENT result on {}: {}", T::NAME, brief(&p))); } }
+    if lite() && T::NAME != "i64" { return p; }
     match std::panic::catch_unwind(std::panic::AssertUnwindSafe(&chained)) {
         Ok(c) => if !same_res(&p, &c) { note(format!("RECEIVER-DIVERGENCE ({}) the call on Ok(array) gives `{}`, the plain call `{}`", T::NAME, brief(&c), brief(&p))); },
         Err(_) => note(format!("RECEIVER-DIVERGENCE ({}) the call on Ok(array) panics, the plain call gives `{}`", T::NAME, brief(&p))),
     }
-    if T::NAME == "i64" { let p2 = plain(); if !same_res(&p, &p2) { note(format!("REPEAT-DIVERGENCE the same call twice: `{}` then `{}`", brief(&p), brief(&p2))); } }
+    if T::NAME == "i64" && !lite() { let p2 = plain(); if !same_res(&p, &p2) { note(format!("REPEAT-DIVERGENCE the same call twice: `{}` then `{}`", brief(&p), brief(&p2))); } }
     p
 }
 
@@ -107,18 +111,19 @@ fn brief_list<T: Tagged>(r: &Result<Vec<Array<T>>, ArrayError>) -> String { trun
 fn rx_list<T: Tagged>(plain: impl Fn() -> Result<Vec<Array<T>>, ArrayError>, chained: impl Fn() -> Result<Vec<Array<T>>, ArrayError>) -> Result<Vec<Array<T>>, ArrayError> {
     let p = plain();
     if let Ok(v) = &p { if v.iter().any(|a| !consistent(a)) { note(format!("INCONSISTENT piece on {}: {}", T::NAME, brief_list(&p))); } }
+    if lite() && T::NAME != "i64" { return p; }
     match std::panic::catch_unwind(std::panic::AssertUnwindSafe(&chained)) {
         Ok(c) => if !same_list(&p, &c) { note(format!("RECEIVER-DIVERGENCE ({}) the call on Ok(array) gives `{}`, the plain call `{}`", T::NAME, brief_list(&c), brief_list(&p))); },
         Err(_) => note(format!("RECEIVER-DIVERGENCE ({}) the call on Ok(array) panics, the plain call gives `{}`", T::NAME, brief_list(&p))),
     }
-    if T::NAME == "i64" { let p2 = plain(); if !same_list(&p, &p2) { note(format!("REPEAT-DIVERGENCE the same call twice: `{}` then `{}`", brief_list(&p), brief_list(&p2))); } }
+    if T::NAME == "i64" && !lite() { let p2 = plain(); if !same_list(&p, &p2) { note(format!("REPEAT-DIVERGENCE the same call twice: `{}` then `{}`", brief_list(&p), brief_list(&p2))); } }
     p
 }
 /// the associated functions of ArrayJoining (no Result receiver exists): C01 monitor + (i64) the same call twice
 fn rep<T: Tagged>(plain: impl Fn() -> Result<Array<T>, ArrayError>) -> Result<Array<T>, ArrayError> {
     let p = plain();
     if let Ok(a) = &p { if !consistent(a) { note(format!("INCONSISTENT result on {}: {}", T::NAME, brief(&p))); } }
-    if T::NAME == "i64" { let p2 = plain(); if !same_res(&p, &p2) { note(format!("REPEAT-DIVERGENCE the same call twice: `{}` then `{}`", brief(&p), brief(&p2))); } }
+    if T::NAME == "i64" && !lite() { let p2 = plain(); if !same_res(&p, &p2) { note(format!("REPEAT-DIVERGENCE the same call twice: `{}` then `{}`", brief(&p), brief(&p2))); } }
     p
 }
 fn extra_list<T: Tagged>(ri: &Result<Vec<Array<i64>>, ArrayError>, rt: std::thread::Result<Result<Vec<Array<T>>, ArrayError>>) -> Option<String> {
@@ -403,8 +408,213 @@ fn gen(tier: &str, seed: u64, out: &mut dyn FnMut(String)) {
             _ => { let p = 1 + rng.below(s[ax] + 2); out(format!("split_concat {a} {p} {ax}")); }
         }
     }
+    // ---- robustness streams, part 2: hidden state, huge sizes, exact lengths and values, aliasing, long lists and high ranks
+    gen_part2(thorough, &mut rng, out);
 }
 
+
+
+// ---------------------------------------------------------------- robustness streams, part 2 (generator)
+
+fn seq(calls: &[String]) -> String { format!("seq {}", calls.join(" / ")) }
+/// calls on more than `lim` elements go through the native reference (`n`), smaller ones through the model
+fn nz(call: String, elems: usize, lim: usize) -> String { if elems > lim { format!("n {call}") } else { call } }
+
+/// pairs of DIFFERENT shapes with the SAME element count that collide under `h = h*m + dim`: [a, m(a+t)] and [a+t, m*a]
+fn equal_count_collisions() -> Vec<(Vec<usize>, Vec<usize>)> {
+    let mut v = vec![];
+    for &m in &[31usize, 33, 37, 131, 257] {
+        for (a, t) in [(1usize, 1usize), (2, 1), (1, 2)] { if m * a * (a + t) <= 1600 { v.push((vec![a, m * (a + t)], vec![a + t, m * a])); v.push((vec![2, a, m * (a + t)], vec![2, a + t, m * a])); } }
+    }
+    v
+}
+
+fn gen_part2(thorough: bool, rng: &mut Rng, out: &mut dyn FnMut(String)) {
+    out("oracle_report".to_string());
+    let lim = if thorough { 600 } else { 400 };
+    // ---- 6a. hidden state: colliding shapes back to back, both orders, through joining (append transposes the gathered lanes) and
+    // splitting (array_split rolls the axis to the front)
+    let mut pairs: Vec<(Vec<usize>, Vec<usize>)> = equal_count_collisions();
+    for (q, p) in collision_shape_pairs().into_iter().enumerate() { if thorough || q % 3 == 0 { pairs.push(p); } }
+    for (q, (sa, sb)) in pairs.iter().enumerate() {
+        let nd = sa.len(); let last = nd - 1;
+        let (na, nb): (usize, usize) = (sa.iter().product(), sb.iter().product());
+        let (a, b) = (tag(sa), tag(sb));
+        let orders: Vec<((&String, &Vec<usize>, usize), (&String, &Vec<usize>, usize))> = if thorough || q % 2 == 0 { vec![((&a, sa, na), (&b, sb, nb)), ((&b, sb, nb), (&a, sa, na))] } else { vec![((&b, sb, nb), (&a, sa, na))] };
+        for ((x, sx, nx), (y, sy, ny)) in orders {
+            let px = { let mut t = sx.clone(); t[last] = 2; tag_off(&t, 100000) }; let py = { let mut t = sy.clone(); t[last] = 2; tag_off(&t, 100000) };
+            out(seq(&[nz(format!("append {x} {px} {last}"), nx, lim), nz(format!("append {y} {py} {last}"), ny, lim), nz(format!("append {x} {px} {last}"), nx, lim)]));
+            out(seq(&[nz(format!("array_split {x} 2 {last}"), nx, lim), nz(format!("array_split {y} 2 {last}"), ny, lim), nz(format!("array_split {x} 3 {}", last - 1), nx, lim), nz(format!("array_split {y} 3 {}", last - 1), ny, lim)]));
+            if q % 4 == 0 || thorough {
+                out(seq(&[nz(format!("stack {x};{} {last}", tag_off(sx, 100000)), 2 * nx, lim), nz(format!("stack {y};{} {last}", tag_off(sy, 100000)), 2 * ny, lim), nz(format!("concatenate {x};{};{x} 0", tag_off(sx, 100000)), 3 * nx, lim), nz(format!("concatenate {y};{};{y} 0", tag_off(sy, 100000)), 3 * ny, lim)]));
+                out(seq(&[nz(format!("split_concat {x} 3 {last}"), nx, lim), nz(format!("split_concat {y} 3 {last}"), ny, lim), nz(format!("split_axis {x} {}", last - 1), nx, lim), nz(format!("split_axis {y} {}", last - 1), ny, lim)]));
+            }
+        }
+    }
+    // permuted / regrouped shapes with equal element counts in ONE sequence, forwards and backwards
+    for group in [vec![vec![2usize, 6], vec![3, 4], vec![4, 3], vec![6, 2], vec![12, 1], vec![1, 12]], vec![vec![8, 9], vec![9, 8], vec![6, 12], vec![12, 6], vec![3, 24], vec![24, 3]],
+                  vec![vec![2, 3, 4], vec![4, 3, 2], vec![3, 2, 4], vec![2, 4, 3], vec![4, 2, 3], vec![3, 4, 2], vec![2, 2, 6], vec![6, 2, 2]]] {
+        for rev in [false, true] {
+            let mut g = group.clone(); if rev { g.reverse(); }
+            let nd = g[0].len();
+            for ax in 0..nd {
+                out(seq(&g.iter().map(|s| format!("append {} {} {ax}", tag(s), tag_off(s, 1000))).collect::<Vec<_>>()));
+                out(seq(&g.iter().map(|s| format!("array_split {} 2 {ax}", tag(s))).collect::<Vec<_>>()));
+                out(seq(&g.iter().map(|s| format!("stack {};{} {ax}", tag(s), tag_off(s, 1000))).collect::<Vec<_>>()));
+            }
+            out(seq(&g.iter().map(|s| format!("vstack {};{}", tag(s), tag_off(s, 1000))).chain(g.iter().map(|s| format!("dstack {};{}", tag(s), tag_off(s, 1000)))).collect::<Vec<_>>()));
+            out(seq(&g.iter().map(|s| format!("split_axis {} {}", tag(s), nd - 1)).chain(g.iter().map(|s| format!("hsplit {} 1", tag(s)))).collect::<Vec<_>>()));
+        }
+    }
+    // ---- 6b. (axis length, part count) pairs that a cache of division points could confuse: the same residue modulo 2^8 / 2^16 in
+    // either component, swapped, equal sum / product / xor, equal polynomial hash (31, 33, 37, 131, 257); both orders
+    {
+        let mut np: Vec<((usize, usize), (usize, usize))> = vec![];
+        for (n, p) in [(10usize, 3usize), (7, 2), (12, 5), (100, 7), (9, 4)] {
+            np.push(((n, p), (n + 256, p))); np.push(((n, p), (n + 65536, p))); np.push(((n, p), (n + 2 * 65536, p))); np.push(((n + 300, p), (n + 300, p + 256)));
+            np.push(((n, p), (p, n))); np.push(((n, p), (n + 1, p - 1))); np.push(((n, p), (n * 2, p))); np.push(((n, p), (n ^ 1, p ^ 1)));
+            for m in [31usize, 33, 37, 131, 257] { np.push(((n, p), (n - 1, p + m))); if p >= 2 { np.push(((n + m, p - 1), (n, p))); } np.push(((p + 1, n + m), (p + 2, n))); }
+        }
+        np.push(((10, 3), (65546, 3))); np.push(((4464, 7), (70000, 7))); np.push(((1, 2), (65537, 2))); np.push(((64, 5), (65600, 5))); np.push(((1, 2), (131073, 2)));
+        // (a part count above 65 536 is not generated: the crate computes the division points in quadratic time, 65 539 parts hang)
+        if thorough { np.push(((300, 70), (65836, 70))); np.push(((10, 3), (10, 259))); }
+        for ((n1, p1), (n2, p2)) in np {
+            if p1 == 0 || p2 == 0 { continue; }
+            let c1 = nz(format!("array_split {} {p1} 0", tag(&[n1])), n1, 150); let c2 = nz(format!("array_split {} {p2} 0", tag(&[n2])), n2, 150);
+            out(seq(&[c1.clone(), c2.clone(), c1.clone()])); out(seq(&[c2.clone(), c1.clone(), c2.clone()]));
+            // the same axis lengths in a rank-2 array, both positions (joining along an axis is quadratic in its length in the crate:
+            // the round trip only for short axes and few parts)
+            if n1 <= 70000 && n2 <= 70000 {
+                let r1 = nz(format!("array_split {} {p1} 1", tag(&[2, n1])), 2 * n1, 150); let r2 = nz(format!("array_split {} {p2} 1", tag(&[2, n2])), 2 * n2, 150);
+                out(seq(&[r1.clone(), r2.clone(), r1]));
+                let op = if n1.max(n2) <= 400 && p1.max(p2) <= 70 { "split_concat" } else { "array_split" };
+                let r1 = nz(format!("{op} {} {p1} 0", tag(&[n1, 2])), 2 * n1, 150); let r2 = nz(format!("{op} {} {p2} 0", tag(&[n2, 2])), 2 * n2, 150);
+                out(seq(&[r2.clone(), r1, r2]));
+            }
+        }
+    }
+    // ---- 6c. a refused call directly followed by valid calls on the same thread
+    for s in [vec![4usize], vec![2, 3], vec![3, 2, 2], vec![6, 4]] {
+        let a = tag(&s); let nd = s.len(); let b = tag_off(&s, 1000); let last = nd - 1;
+        let mut w = s.clone(); w[0] += 1; let wrong = tag_off(&w, 2000);         // differs on axis 0: refused when joined along another axis
+        let bads = vec![format!("array_split {a} 0 0"), format!("split {a} {} {last}", s[last] + 1), format!("array_split {a} 2 {nd}"), format!("split_axis {a} {}", nd + 1), format!("stack {a};{wrong} 0"),
+                        format!("concatenate {a};{b};{wrong} {}", if nd > 1 { last } else { 3 }), format!("append {a} {wrong} {}", if nd > 1 { last } else { 2 }), format!("dsplit {a} 0"), format!("append {a} {} 0", tag_off(&[2, 2, 2, 2, 2], 1000))];
+        let goods = vec![format!("array_split {a} 3 {last}"), format!("split {a} {} 0", s[0]), format!("split_axis {a} {last}"), format!("append {a} {b} {last}"), format!("concatenate {a};{b};{a} 0"), format!("stack {a};{b} 0"),
+                         format!("split_concat {a} 3 0"), format!("vstack {a};{b}"), format!("append {a} {b} none")];
+        for (q, bad) in bads.iter().enumerate() { for r in 0..(if thorough { goods.len() } else { 3 }) { out(seq(&[bad.clone(), goods[(q + 3 * r) % goods.len()].clone(), goods[(q + r + 1) % goods.len()].clone()])); } }
+        out(seq(&[bads[0].clone(), bads[4].clone(), goods[0].clone(), bads[6].clone(), goods[3].clone(), goods[4].clone()]));
+    }
+    // ---- 6d. A–B–A: a call, a different call, the first call again (seeded)
+    {
+        let mk = |rng: &mut Rng| -> String {
+            let nd = 1 + rng.below(3); let hi = if rng.below(3) == 0 { 12 } else { 4 };
+            let mut s: Vec<usize> = (0..nd).map(|_| 1 + rng.below(hi)).collect();
+            while s.iter().product::<usize>() > 200 { let p = rng.below(nd); s[p] = 1 + s[p] / 2; }
+            let a = tag(&s); let ax = rng.below(nd);
+            match rng.below(5) {
+                0 => { let mut t = s.clone(); t[ax] = 1 + rng.below(3); format!("append {a} {} {ax}", tag_off(&t, 1000)) }
+                1 => { let mut t = s.clone(); t[ax] = 1 + rng.below(3); format!("concatenate {a};{};{a} {ax}", tag_off(&t, 1000)) }
+                2 => format!("array_split {a} {} {ax}", 1 + rng.below(s[ax] + 1)),
+                3 => format!("stack {a};{} {ax}", tag_off(&s, 1000)),
+                _ => format!("split_concat {a} {} {ax}", 1 + rng.below(s[ax] + 1)),
+            }
+        };
+        for _ in 0..(if thorough { 600 } else { 200 }) { let (a, b) = (mk(rng), mk(rng)); out(seq(&[a.clone(), b, a])); }
+    }
+    // ---- 7. huge sizes through the native reference: joining the array with partners on every axis whose length the crate can cut
+    // (its `split` is quadratic in the number of parts: axes up to 3000 positions), stacking, the conveniences, every split
+    let mut huge = huge_shapes();
+    huge.extend([vec![130, 100], vec![65, 129], vec![257, 65], vec![2, 65, 129], vec![1, 65600]]);
+    if thorough { huge.extend([vec![100, 130], vec![3, 8200], vec![191, 193], vec![64, 257], vec![1000, 131], vec![127, 129, 3], vec![7, 9, 11, 13, 2], vec![2, 3, 2, 3, 2, 3, 2, 37], vec![3, 40000], vec![129, 2, 65]]); }
+    for (q, s) in huge.iter().enumerate() {
+        let a = tag(s); let nd = s.len(); let n: usize = s.iter().product(); let off = 1_000_000i64;
+        // the crate needs ~40 ms per call on these arrays: the quick tier takes a rotating selection of the lines below
+        let mut r = q;
+        let mut pick = |always: bool| -> bool { r += 1; always || (thorough && q < 17) || r % 2 == 0 };
+        for ax in 0..nd {
+            if s[ax] > 3000 { continue; }
+            let lastax = ax + 1 == nd;
+            let with = |len: usize, o: i64| { let mut t = s.clone(); t[ax] = len; tag_off(&t, o) };
+            if pick(lastax) { out(format!("n append {a} {} {ax}", with(s[ax], off))); }
+            if (n <= 40000 || lastax) && pick(lastax) { out(format!("n append {} {a} {ax}", with(1 + (q + ax) % 3, off))); }
+            if (n <= 40000 || lastax) && pick(false) { out(format!("n concatenate {};{a};{} {ax}", with(65.min(s[ax]), off), with(3, 2 * off))); }
+            if n <= 40000 && pick(false) { out(format!("n stack {a};{} {ax}", tag_off(s, off))); }
+            // splitting: uneven, exact, more than 64 parts, the round trip
+            let d = s[ax];
+            if pick(false) { out(format!("n array_split {a} {} {ax}", uneven(d))); }
+            if d >= 67 && pick(lastax) { out(format!("n array_split {a} {} {ax}", [65usize, 66, 67, 100][(q + ax) % 4].min(d))); }
+            if d <= 400 && pick(false) { out(format!("n split_concat {a} {} {ax}", if d >= 70 && n <= 40000 { 67 } else { uneven(d) })); }
+            if pick(false) { if d % 2 == 0 { out(format!("n split {a} 2 {ax}")); } else if d % 3 == 0 { out(format!("n split {a} 3 {ax}")); } else if d % 5 == 0 { out(format!("n split {a} 5 {ax}")); } }
+            if d <= 300 && n <= 40000 && pick(false) { out(format!("n split_axis {a} {ax}")); }
+        }
+        // an axis above 3000 positions (above 65 536 in four shapes): few parts only
+        for ax in 0..nd { if s[ax] > 3000 { out(format!("n array_split {a} 3 {ax}")); if pick(false) { out(format!("n array_split {a} 7 {ax}")); } if pick(false) { out(format!("n array_split {a} 5 {ax}")); } if s[ax] % 2 == 0 && pick(false) { out(format!("n split {a} 2 {ax}")); } } }
+        if s[0] <= 3000 && n <= 40000 && pick(false) { out(format!("n vstack {a};{}", tag_off(s, off))); out(format!("n vsplit {a} {}", if s[0] % 2 == 0 { 2 } else { s[0] })); }
+        if nd >= 2 && s[1] <= 3000 && n <= 40000 && pick(false) { out(format!("n hstack {a};{}", tag_off(s, off))); out(format!("n hsplit {a} {}", if s[1] % 2 == 0 { 2 } else if s[1] % 3 == 0 { 3 } else { 1 })); }
+        if nd >= 3 && s[2] <= 3000 && n <= 40000 && pick(false) { out(format!("n dstack {a};{}", tag_off(s, off))); out(format!("n dsplit {a} {}", if s[2] % 2 == 0 { 2 } else { 1 })); }
+        if nd == 2 && s[1] <= 3000 && n <= 40000 && pick(false) { out(format!("n column_stack {a};{};{}", tag_off(&[s[0]], off), tag_off(s, 2 * off))); }
+        if pick(false) { out(format!("n append {a} {} none", tag_off(&[70000], off))); } if pick(false) { out(format!("n append_self {a} none")); } if pick(false) { out(format!("n concatenate {a};{};{a} none", tag_off(&[3], off))); }
+        if s[nd - 1] <= 3000 && pick(false) { out(format!("n append_self {a} {}", nd - 1)); }
+    }
+    // hidden state at these sizes: equal element counts back to back; the long axis after its residue modulo 65 536 in a rank-2 array
+    out(seq(&[format!("n append {} {} 1", tag(&[130, 100]), tag_off(&[130, 100], 100000)), format!("n append {} {} 1", tag(&[100, 130]), tag_off(&[100, 130], 100000)), format!("n append {} {} 1", tag(&[130, 100]), tag_off(&[130, 100], 100000)), format!("n append {} {} 1", tag(&[65, 200]), tag_off(&[65, 200], 100000))]));
+    out(seq(&[format!("array_split {} 3 1", tag(&[2, 10])), format!("n array_split {} 3 1", tag(&[2, 65546])), format!("array_split {} 3 0", tag(&[10, 2])), format!("n array_split {} 3 0", tag(&[65546, 2]))]));
+    // ---- 8. exact lengths: every axis length 1..300 in a non-leading position (the small ones and one in sixteen through the model, the
+    // others through the reference); part counts 31, 37, 65..67, 100, 128, 129, 255..257, 1000, 1001
+    for l in 1..=300usize {
+        let direct = l <= 40 || l == 49 || l % 16 == 1 || (thorough && (l <= 64 || l % 8 == 1));
+        let a = tag(&[2, l]); let lim8 = if direct { usize::MAX } else { 0 };
+        out(nz(format!("append {a} {} 1", tag_off(&[2, 1 + l % 3], 1000)), 1, lim8));
+        out(nz(format!("array_split {a} {} 1", uneven(l)), 1, lim8));
+        match l % 3 { 0 => out(nz(format!("split_concat {a} {} 1", 1 + l / 2), 1, lim8)), 1 => out(nz(format!("append {} {a} 1", tag_off(&[2, l], 1000)), 1, lim8)), _ => out(nz(format!("hstack {a};{}", tag_off(&[2, l], 1000)), 1, lim8)) }
+        if l % 2 == 1 { let b = tag(&[3, l, 2]); out(format!("n append {b} {} 1", tag_off(&[3, 2, 2], 1000))); out(format!("n array_split {b} {} 1", uneven(l))); if l % 4 == 1 { out(format!("n stack {b};{} 1", tag_off(&[3, l, 2], 1000))); } }
+    }
+    for p in [31usize, 37, 65, 66, 67, 100, 128, 129, 255, 256, 257, 1000, 1001] {
+        for s in [vec![p + 7], vec![2 * p + 1, 3], vec![3, p + p / 2], vec![2, p, 2]] {
+            let nd = s.len(); let ax = (0..nd).max_by_key(|&k| s[k]).unwrap(); let n: usize = s.iter().product();
+            out(nz(format!("array_split {} {p} {ax}", tag(&s)), n, 300)); if p <= 67 { out(nz(format!("split_concat {} {p} {ax}", tag(&s)), n, 300)); }
+            if s[ax] % p == 0 { out(nz(format!("split {} {p} {ax}", tag(&s)), n, 300)); }
+        }
+    }
+    for &p in &[19usize, 23, 29, 31, 37, 41, 43, 47, 49, 53, 97, 101, 127, 131, 251, 257] {
+        let a = tag(&[p]); out(format!("array_split {a} 3 0")); out(format!("append {a} {} 0", tag_off(&[p], 1000))); out(format!("n split_concat {} 4 1", tag(&[p, p]))); out(format!("n append {} {} 1", tag(&[p, p]), tag_off(&[p, 2], 100000)));
+    }
+    // axis numbers that are valid only after a narrowing cast must be refused
+    for s in [vec![4usize], vec![2, 3], vec![3, 4, 2]] {
+        let a = tag(&s); let b = tag_off(&s, 1000);
+        for c in [0usize, 1] { for v in narrowing_images(c) {
+            out(format!("array_split {a} 2 {v}")); out(format!("split {a} 1 {v}")); out(format!("split_axis {a} {v}")); out(format!("append {a} {b} {v}")); out(format!("concatenate {a};{b} {v}")); out(format!("stack {a};{b} {v}"));
+        } }
+        out(seq(&[format!("array_split {a} 2 {}", 1usize << 32), format!("array_split {a} 2 0"), format!("concatenate {a};{b} {}", 1usize << 16), format!("concatenate {a};{b} 0")]));
+    }
+    // ---- 9. aliasing: the receiver itself as the `values` argument
+    for s in [vec![1usize], vec![3], vec![17], vec![300], vec![2, 3], vec![3, 1, 2], vec![8, 9], vec![2, 2, 2, 2], vec![40, 30], vec![0, 2], vec![2, 0]] {
+        let a = tag(&s); let nd = s.len(); let n: usize = s.iter().product();
+        out(nz(format!("append_self {a} none"), n, 700));
+        for ax in 0..=nd { out(nz(format!("append_self {a} {ax}"), if ax < nd { n } else { 0 }, 700)); }
+    }
+    // ---- 10. lists of 5..9 arrays, ranks 5..8, many parts
+    for s in [vec![2usize, 3], vec![3], vec![2, 1, 2], vec![2, 3, 2, 2, 3], vec![2, 1, 2, 2, 1, 2], vec![2, 2, 2, 2, 2, 2, 2], vec![1, 2, 1, 2, 2, 1, 2, 3]] {
+        let nd = s.len();
+        for k in [5usize, 6, 9] {
+            for ax in 0..nd {
+                if nd > 3 && (ax + k) % 3 != 0 && !thorough { continue; }
+                let items: Vec<(Vec<usize>, i64)> = (0..k).map(|j| { let mut t = s.clone(); t[ax] = 1 + rng.below(3); (t, 1000 * j as i64) }).collect();
+                out(format!("concatenate {} {ax}", list(&items)));
+                let same: Vec<(Vec<usize>, i64)> = (0..k).map(|j| (s.clone(), 1000 * j as i64)).collect();
+                out(format!("stack {} {ax}", list(&same)));
+                if ax == 0 { out(format!("vstack {}", list(&items))); out(format!("row_stack {}", list(&same))); }
+                if ax == 1 { out(format!("hstack {}", list(&same))); if nd == 2 { out(format!("column_stack {}", list(&items))); } }
+                if ax == 2 { out(format!("dstack {}", list(&items))); }
+            }
+            let same: Vec<(Vec<usize>, i64)> = (0..k).map(|j| (s.clone(), 1000 * j as i64)).collect();
+            out(format!("concatenate {} none", list(&same))); out(format!("dstack {}", list(&same))); out(format!("hstack {}", list(&same)));
+        }
+        if nd >= 5 { let a = tag(&s); for ax in 0..nd { for p in 1..=(s[ax] + 1) { out(format!("array_split {a} {p} {ax}")); out(format!("split_concat {a} {p} {ax}")); } out(format!("split_axis {a} {ax}")); out(format!("append {a} {} {ax}", tag_off(&s, 1000))); }
+            out(format!("hsplit {a} 1")); out(format!("vsplit {a} 2")); out(format!("dsplit {a} 2")); }
+    }
+    out("oracle_report final".to_string());
+}
 
 // ---------------------------------------------------------------- harness-native reference (block placement by coordinates)
 
@@ -451,7 +661,7 @@ fn cut_ref(shape: &[usize], e: &[i64], ax: usize, sizes: &[usize]) -> Vec<Val> {
 fn sections(d: usize, parts: usize) -> Vec<usize> { (0..parts).map(|k| d / parts + if k < d % parts { 1 } else { 0 }).collect() }
 
 /// The statement of C11 as direct block placement.  `None` = no opinion (zero-size arrays, mixed ranks for the conveniences, a new
-/// LAST axis for stack, more parts than positions, …: judged by the model only); `Some(None)` = the call must be refused.
+/// LAST axis for stack, …: judged by the model only); `Some(None)` = the call must be refused.
 fn oracle(op: &str, args: &[&str]) -> Option<Option<Ans>> {
     let src = *args.first()?;
     if src == "-" { return None; }
@@ -465,7 +675,6 @@ fn oracle(op: &str, args: &[&str]) -> Option<Option<Ans>> {
         if parts == 0 { return Some(None); }
         let ax = match ax { Some(ax) if ax >= nd => return Some(None), Some(ax) => ax, None => 0 };
         if exact && shape[ax] % parts != 0 { return Some(None); }
-        if parts > shape[ax] { return None; }            // empty pieces: model only
         Some(Some(Ans::List(cut_ref(&shape, &e, ax, &sections(shape[ax], parts)))))
     };
     Some(match op {
@@ -477,7 +686,11 @@ fn oracle(op: &str, args: &[&str]) -> Option<Option<Ans>> {
             None => { if items.len() < 2 { return None; } let out: Vec<i64> = items.iter().flat_map(|(_, e)| e.iter().copied()).collect(); Some(Ans::Arr((vec![out.len()], out))) }
             Some(ax) => { if !same_rank { return None; } arr(concat_ref(&items, ax)) } },
         "stack" => { let ax = ax_opt(args[1]).unwrap_or(0); if ax >= nd { return None; } arr(stack_ref(&items, ax)) }
-        "vstack" | "row_stack" => { if !same_rank { return None; } if nd == 1 { arr(stack_ref(&items, 0)) } else { arr(concat_ref(&items, 0)) } }
+        "vstack" | "row_stack" => { if !same_rank { return None; }
+            // vectors of different lengths: the statement demands a refusal, the pinned code (and the model, which mirrors it) reshapes the
+            // chained data to [count, len(first)] whenever the total happens to fit (fixes/C11-vstack-vectors-unequal-lengths.md): no opinion
+            if nd == 1 && items.iter().any(|(s, _)| s != &shape) { return None; }
+            if nd == 1 { arr(stack_ref(&items, 0)) } else { arr(concat_ref(&items, 0)) } }
         "hstack" => { if !same_rank { return None; } arr(concat_ref(&items, if nd == 1 { 0 } else { 1 })) }
         "dstack" => { if !same_rank { return None; }
             let up: Vec<Val> = items.iter().map(|(s, e)| (match s.len() { 1 => vec![1, s[0], 1], 2 => vec![s[0], s[1], 1], _ => s.clone() }, e.clone())).collect();
@@ -606,7 +819,10 @@ fn exec_native(args: &[&str], expected: &str) -> Option<Verdict> {
     let (op, rest) = (*args.first()?, &args[1..]);
     let want = oracle_text(&oracle(op, rest)?);      // `n` lines are only generated where the reference has an opinion
     ORACLE_ONLY.fetch_add(1, Ordering::Relaxed);
-    let obs = run_call(op, rest, false)?;
+    LITE.with(|l| l.set(elems_of(rest[0]) > 5000));
+    let obs = run_call(op, rest, false);
+    LITE.with(|l| l.set(false));
+    let obs = obs?;
     if obs == want || (class_of(&obs) == "err" && want == "err") { return Some(Verdict::Match(format!("ok native ({} bytes as the harness-native reference)", obs.len()))); }
     Some(Verdict::Mismatch { detail: format!("differs from the harness-native block-placement reference: {}; reference `{}`", diff_detail(&obs, &want), truncate(&want, 300)), observed: truncate(&obs, 1500) })
 }
@@ -682,5 +898,5 @@ fn nontrivial(op: &str, args: &[&str]) -> bool {
 
 fn main() {
     harness_main(Spec { prop: "C11", gen, exec, nontrivial, hang_secs: 20,
-        rule: "every shape rank<=4 len<=3 (+ lengths 4-7): array_split / split / split-then-concatenate for EVERY axis and every part count 1..len+2 (+0, axis none, axis out of range), split_axis, hsplit/vsplit/dsplit 0..4; concatenate/append of 2-4 arrays with seeded lengths 1..3 along EVERY axis (+ off-axis mismatch, rank mismatch, flat form), stack on every axis (+none, rank, rank+1), the five conveniences on equal shapes / shapes differing along the stacking axis / off-axis mismatches / mixed ranks / empty lists; off-axis mismatches that keep the product of the other axes (permuted / regrouped off-axis lengths, rank 3-4, every axis, both orders, first and later pair) for append/concatenate/vstack/row_stack/hstack/column_stack/dstack, permuted shapes for stack and column_stack - all must be refused; zero-size shapes (lib zero_shapes + [2,0,3],[0,2,2],[3,0,2],[2,2,0,2]): append/concatenate with partners of length 0..2 on every axis, stack, the five conveniences, every split; seeded random rank<=5. Robustness streams: sizes (lib big_shapes + shapes at/around 256, 1024, 4096 elements in rank 2-4, up to [70,70]/[16,20,16]/[8,8,8,8], rank 8): every split op on every axis with part counts 2,3,4,5,7,len-1,len,len+1,2len and the round trip (>= 2000 elements: one uneven part count per axis + round trip + parts beyond the length), joining the big array with 1-2 partners of length 1..3 on every axis, stack and the conveniences; joining along an axis followed by a long contiguous run (23 templates, trailing product 31..1030, outer extent 1..17) x 12 combinations of equal/unequal/zero lengths for 2 and 3 inputs through append (both orders), concatenate, stack, the convenience of that axis and the round trip; arrays holding the zero tag in most positions (f64/f32 image -0.0, bit-wise) through every op incl. column_stack of vectors and matrices; seeded random rank 2-4 with axis lengths <= 17. EVERY case runs on Array<i64> (the compared answer), on the u8 and f64 (tag 0 = -0.0, bit-wise) images, one small case in three also on i8 / bool / String / f32; append and the six splitting methods on the plain receiver AND on Ok(array) through the Result-receiver impls (ArrayJoining has associated functions only); the i64 call twice; any divergence fails the case. Tag arrays. non-trivial: >=2 parts on rank>=2, or >=2 arrays joined" });
+        rule: "every shape rank<=4 len<=3 (+ lengths 4-7): array_split / split / split-then-concatenate for EVERY axis and every part count 1..len+2 (+0, axis none, axis out of range), split_axis, hsplit/vsplit/dsplit 0..4; concatenate/append of 2-4 arrays with seeded lengths 1..3 along EVERY axis (+ off-axis mismatch, rank mismatch, flat form), stack on every axis (+none, rank, rank+1), the five conveniences on equal shapes / shapes differing along the stacking axis / off-axis mismatches / mixed ranks / empty lists; off-axis mismatches that keep the product of the other axes (permuted / regrouped off-axis lengths, rank 3-4, every axis, both orders, first and later pair) for append/concatenate/vstack/row_stack/hstack/column_stack/dstack, permuted shapes for stack and column_stack - all must be refused; zero-size shapes (lib zero_shapes + [2,0,3],[0,2,2],[3,0,2],[2,2,0,2]): append/concatenate with partners of length 0..2 on every axis, stack, the five conveniences, every split; seeded random rank<=5. Robustness streams: sizes (lib big_shapes + shapes at/around 256, 1024, 4096 elements in rank 2-4, up to [70,70]/[16,20,16]/[8,8,8,8], rank 8): every split op on every axis with part counts 2,3,4,5,7,len-1,len,len+1,2len and the round trip (>= 2000 elements: one uneven part count per axis + round trip + parts beyond the length), joining the big array with 1-2 partners of length 1..3 on every axis, stack and the conveniences; joining along an axis followed by a long contiguous run (23 templates, trailing product 31..1030, outer extent 1..17) x 12 combinations of equal/unequal/zero lengths for 2 and 3 inputs through append (both orders), concatenate, stack, the convenience of that axis and the round trip; arrays holding the zero tag in most positions (f64/f32 image -0.0, bit-wise) through every op incl. column_stack of vectors and matrices; seeded random rank 2-4 with axis lengths <= 17. EVERY case runs on Array<i64> (the compared answer), on the u8 and f64 (tag 0 = -0.0, bit-wise) images, one small case in three also on i8 / bool / String / f32; append and the six splitting methods on the plain receiver AND on Ok(array) through the Result-receiver impls (ArrayJoining has associated functions only); the i64 call twice; any divergence fails the case. Tag arrays.  Part 2: seq lines (calls back to back on one thread: colliding shapes, colliding (axis length, part count) pairs incl. a long axis after its residue modulo 65536, refused-then-valid, A-B-A), n lines (16384..140000 elements, axes above 65536, >64 parts, every axis length 1..300) judged by the harness-native block-placement reference, which is compared with the full model answer on every other case of the run (oracle_report lines); append_self (aliasing); lists of 5-9 arrays, ranks 5-8; implicit A-B-A re-runs in exec. non-trivial: >=2 parts on rank>=2, or >=2 arrays joined (seq / n lines: some call of the line)" });
 }
